@@ -44,6 +44,21 @@ def showObj (a : Int × Int × Int × Int) : String := s!"({a.1},{a.2.1},{a.2.2.
 
 def innerOf (t : Tour) : List Nat := Spec.inner t.nodes
 
+/-- cycles as cyclic orders: empty cycles dropped, each rotated to its smallest vehicle, sorted -/
+def canonCycles (cs : List (List Veh)) : List (List Veh) :=
+  let rot (c : List Veh) : List Veh :=
+    match c with
+    | [] => []
+    | x :: xs =>
+      let m := xs.foldl (fun a b => if Veh.lt b a then b else a) x
+      match c.findIdx? (· == m) with
+      | some k => c.drop k ++ c.take k
+      | none => c
+  let ne := (cs.filter (fun c => !c.isEmpty)).map rot
+  ne.mergeSort (fun a b => match a.head?, b.head? with
+    | some x, some y => !(Veh.lt y x)
+    | _, _ => true)
+
 def checkPipe (c : Case) : VM Unit := do
   let nw := c.inst.load
   -- split by build
@@ -232,10 +247,10 @@ def checkPipe (c : Case) : VM Unit := do
           | none => false)) then
       vfail "C16" "final-activities-differ-from-local-search" ""
     for vt in nw.typeIdxs do
-      let cf := (fin.s.transitionOf vt).cycles.map (·.vehicles)
-      let ct := (tr.s.transitionOf vt).cycles.map (·.vehicles)
+      let cf := canonCycles ((fin.s.transitionOf vt).cycles.map (·.vehicles))
+      let ct := canonCycles ((tr.s.transitionOf vt).cycles.map (·.vehicles))
       if cf != ct then vfail "C16" "final-cycles-not-optimised-cycles" s!"type={vt} final={cf.map (·.map (·.idx))} optimised={ct.map (·.map (·.idx))}"
-      let cj := (out.cycles.filter (·.1 == vt)).map (·.2)
+      let cj := canonCycles ((out.cycles.filter (·.1 == vt)).map (·.2))
       if cj != ct then vfail "C16" "reported-cycles-not-optimised-cycles" s!"type={vt} reported={cj.map (·.map (·.idx))} optimised={ct.map (·.map (·.idx))}"
       -- end depots aligned to the optimiser's cycles
       for cyc in ct do
